@@ -22,7 +22,8 @@ from engines import edif_gen as G
 
 ENGINE_DIR = "Spydr/Edif"
 AUDIT = "Spydr/Edif/Audit.lean"
-MODULES = {"C05": ["Spydr.Edif.Props.C05"], "C03": ["Spydr.Edif.Props.C03"]}
+MODULES = {"C05": ["Spydr.Edif.Props.C05", "Spydr.Edif.Props.C05Denote", "Spydr.Edif.Audit"],
+           "C03": ["Spydr.Edif.Props.C03", "Spydr.Edif.Props.C03Closure", "Spydr.Edif.Props.C03Fragment", "Spydr.Edif.Audit"]}
 THEOREMS = json.load(open(os.path.join(os.path.dirname(__file__), "edif.meta.json")))["properties"]
 
 # signatures of the open findings (known_findings.d/edif.json).  Each is tied to one explicit
